@@ -48,8 +48,9 @@ Definition pmodel (c : pcase) : pobs :=
       let s := qsum vals in
       if p_avg c then
         let v := (fst s, snd s * Z.of_nat (length vals))%Z in
-        (* Literal(sum / counter) is an xsd:double; Literal(Decimal / Decimal) an xsd:decimal *)
-        if N.eqb d 2 || N.eqb d 3 then PVal 3 v else PVal 1 v
+        (* Literal(sum / counter, datatype=self.datatype) in the float/double branch (commit
+           bd5db65a); Literal(Decimal / Decimal) is an xsd:decimal *)
+        if N.eqb d 2 || N.eqb d 3 then PVal d v else PVal 1 v
       else PVal d s
   end.
 
@@ -91,10 +92,3 @@ Definition pspec (c : pcase) (o : pobs) : bool :=
   end.
 
 Definition pwf (c : pcase) : bool := forallb (fun p => N.ltb (fst p) 4) (p_vals c).
-
-(* 1 = F-C08g: AVG over a group whose common type is xsd:float answers an xsd:double *)
-Definition pkf (c : pcase) : N :=
-  match p_vals c with
-  | [] => 0
-  | _ => if p_avg c && N.eqb (lattice_max (map fst (p_vals c))) 2 then 1 else 0
-  end%N.
